@@ -174,6 +174,16 @@ def run(ctx, spec):
         for _ in range(300):
             words = ["".join(rng.choice("abc,") for _ in range(rng.randint(1, 9))) for _ in range(rng.randint(1, 14))]
             check_wrap(ctx, words, rng.randint(1, 30))
+        # one or two words longer than the wrap width (a long family name) among short ones: the only lines allowed to
+        # exceed the width are those made of such a word alone
+        for _ in range(spec.get("noverlong", 6000)):
+            width = rng.randint(3, 20)
+            n = rng.randint(4, 12)
+            words = ["".join(rng.choice("abcdefg") for _ in range(rng.randint(1, max(1, min(width, 8))))) + "," for _ in range(n)]
+            for pos in rng.sample(range(n), rng.choice([1, 1, 2])):
+                words[pos] = "".join(rng.choice("xyz") for _ in range(width + rng.randint(1, 8)))
+            ctx.count("mon.wrap_overlong_word")
+            check_wrap(ctx, words, width)
         check_escape(ctx, rng)
         return
     rng = ctx.rng("draw")
